@@ -1,13 +1,12 @@
 package chipsim
 
-// placeholders until pace.go / ca.go / aa.go are written
+// placeholders until ca.go / aa.go are written
 
-type PACEState struct{}
-type CAState struct{}
+type CAState struct{ pending bool }
 type AAState struct{}
 
-func (c *Card) doMSE(cmd *Cmd) ([]byte, uint16) { return nil, 0x6A80 }
-func (c *Card) doGA(cmd *Cmd) ([]byte, uint16)  { return nil, 0x6A80 }
+func (a *CAState) mse(c *Card, cmd *Cmd) ([]byte, uint16)                 { return nil, 0x6A80 }
+func (a *CAState) generalAuthenticate(c *Card, cmd *Cmd) ([]byte, uint16) { return nil, 0x6A80 }
 func (a *AAState) internalAuthenticate(c *Card, cmd *Cmd) ([]byte, uint16) {
 	return nil, 0x6D00
 }
